@@ -263,6 +263,11 @@ theorem setState_ok (r : Res) (s : SState) (d : ExtG) : StepOK r s (setState r s
   exact Good.emit (Good.mono hg (addG_le _ _ _)) _ (addG_has _ _ _)
 
 
+theorem softMaskState_ok (r : Res) (s : SState) :
+    StepOK r s (softMaskState r s).2 (softMaskState r s).1 := by
+  have h := setState_ok r s softMaskDict
+  exact ⟨h.le, h.wf, fun hg => (h.good hg).of_rops (fun _ ho => ho)⟩
+
 theorem popOps_sub (s : SState) : ∀ o ∈ (popOps s).rops, o ∈ s.rops ∨ o = .Q := by
   unfold popOps
   split
@@ -356,6 +361,10 @@ theorem stepS_ok (r : Res) (s : SState) (c : Call) (s' : SState) (r' : Res) (hsc
   | setState d =>
     simp only [stepS] at h; simp at h
     have := setState_ok r s d
+    rw [h] at this; exact this
+  | softMaskState =>
+    simp only [stepS] at h; simp at h
+    have := softMaskState_ok r s
     rw [h] at this; exact this
   | setBlendMode mode =>
     simp only [stepS] at h; simp at h
